@@ -342,6 +342,9 @@ func TestC02Session(t *testing.T) {
 		cfg := drawPairCfg(rt, pairGenOpts{})
 		fs := sim.DrawFateScript(rt, opts)
 		app := drawSessApps(rt, pairMSS(cfg), 20, 80_000)
+		if cfg.Listener && len(app[0].Writes) == 0 {
+			app[0].Writes = []int{1} // a listener only learns of a peer that speaks first
+		}
 		retunes := drawRetunes(rt, cfg)
 		// a socket whose sendto fails a few times and then works again (a route
 		// that disappears for a moment): the library refuses further Writes at
